@@ -22,5 +22,30 @@ KERNELS = {
              rename={"header.eps": "msg_eps", "self.input_node.eps": "node_eps"}, params=["msg_eps", "node_eps"], props=["C05"]),
         dict(name="input_prev_eps", file=ASYNC, func="_AsyncConnectionWrapper.push_input", loc=("iftest", 1), result="Bool", ty="Int",
              rename={"header_sent.eps": "msg_eps", "self.input_node.eps": "node_eps"}, params=["msg_eps", "node_eps"], props=["C05"]),
+        # ---- trigger discipline of the connection handlers (no lost wake-up): a handler that served an item checks again ...
+        dict(name="selection_rechecks", file=ASYNC, func="_AsyncConnectionWrapper.push_selection",
+             loc=("stmt_order", ["self.input_node._submit(self.input_node.push_step)", "self.push_selection()"]), props=["C05"]),
+        dict(name="ts_max_rechecks", file=ASYNC, func="_AsyncConnectionWrapper.push_ts_max",
+             loc=("stmt_order", ["self.input_node._submit(self.input_node.push_phase_shift)", "self.push_ts_max()"]), props=["C05"]),
+        dict(name="expected_nonblocking_rechecks", file=ASYNC, func="_AsyncConnectionWrapper.push_expected_nonblocking",
+             loc=("stmt_order", ["self.q_expected_select.append((ts_step, num_msgs))", "self.push_selection()", "self.push_expected_nonblocking()"]), props=["C05"]),
+        # ... and whoever appends to a queue such a handler reads calls the handler afterwards
+        dict(name="expected_blocking_triggers", file=ASYNC, func="_AsyncConnectionWrapper.push_expected_blocking",
+             loc=("stmt_order", ["self.q_expected_ts_max.append(num_msgs)", "self.push_ts_max()", "self.q_expected_select.append((scheduled_ts, num_msgs))", "self.push_selection()"]), props=["C05"]),
+        dict(name="ts_input_triggers", file=ASYNC, func="_AsyncConnectionWrapper.push_ts_input",
+             loc=("stmt_order", ["self.q_ts_input.append((seq, recv_sc))", "self.push_ts_max()", "self.push_expected_nonblocking()"]), props=["C05"]),
+        dict(name="zip_triggers_selection", file=ASYNC, func="_AsyncConnectionWrapper.push_zip",
+             loc=("stmt_order", ["self.q_msgs.append((record_msg, msg))", "self.push_selection()"]), props=["C05"]),
+        # handlers that join one item from each of several queues (one unit per call): every append is followed by a call
+        dict(name="zip_called_after_delay", file=ASYNC, func="_AsyncConnectionWrapper.push_ts_input",
+             loc=("stmt_order", ["self.q_zip_delay.append(delay_sc)", "self.push_zip()"]), props=["C05"]),
+        dict(name="zip_called_after_msg", file=ASYNC, func="_AsyncConnectionWrapper.push_input",
+             loc=("stmt_order", ["self.q_zip_msgs.append((msg, header_sent))", "self.push_zip()"]), props=["C05"]),
+        dict(name="step_called_after_grouped", file=ASYNC, func="_AsyncConnectionWrapper.push_selection",
+             loc=("stmt_order", ["self.q_grouped.append(grouped[-self.connection.window:])", "self.input_node._submit(self.input_node.push_step)"]), props=["C05"]),
+        dict(name="step_called_after_start", file=ASYNC, func="_AsyncNodeWrapper.push_phase_shift",
+             loc=("stmt_order", ["self.q_ts_start.append((tick, ts_start, delay, record_step))", "self.push_step()"]), props=["C05"]),
+        dict(name="next_step_triggers_expected_nonblocking", file=ASYNC, func="_AsyncNodeWrapper.push_phase_shift",
+             loc=("stmt_order", ["i.q_ts_next_step.append((tick, ts_start))", "i._submit(i.push_expected_nonblocking)"]), props=["C05"]),
     ],
 }
